@@ -62,12 +62,12 @@ fn post_process(rep: &Report, st: &H263State, what: &str, replay: serde_json::Va
 
 pub fn run(tier: Tier) -> Report {
     let rep = Report::new("C13", "pipeline", tier);
-    let maxd: u16 = if tier.thorough() { 128 } else { 48 };
+    let maxd: u16 = if tier.thorough() { 200 } else { 48 };
     let mut cases: Vec<(u16, u16, u8, u8)> = vec![]; // w, h, q, kind (0 I, 1 I+P, 2 I+D)
     for w in 1..=maxd {
         for h in 1..=maxd {
             for q in 1..=31u8 {
-                let full = (w <= 20 && h <= 20) || (tier.thorough() && w <= 40 && h <= 40);
+                let full = (w <= 20 && h <= 20) || (tier.thorough() && w <= 64 && h <= 64);
                 // pairwise beyond 20: quantizer tied to the size so that every (w,q) and (h,q) pair occurs
                 if full || q as u16 == 1 + (w + h) % 31 || q as u16 == 1 + (w * 7 + h * 3) % 31 {
                     cases.push((w, h, q, 0));
